@@ -262,7 +262,7 @@ var apiNames = map[string]bool{
 	"verifSymbolic": true, "verifIsConcrete": true, "verifCheck": true, "verifFlushChecks": true, "verifAnd": true, "verifSelI64": true, "verifCount": true, "verifB2I": true, "verifSelU8": true, "verifOr": true,
 	// environment
 	"verifFSSnapshot": true, "verifFSRestore": true, "verifFSCutToSynced": true, "verifFSReset": true,
-	"verifTick": true, "verifYield": true, "verifNumTickers": true, "verifLockHeld": true, "verifGoroutine": true,
+	"verifTick": true, "verifYield": true, "verifNumTickers": true, "verifLockHeld": true, "verifGoroutine": true, "verifWatchCalls": true,
 	"verifMapOrderChoice": true, "verifFSFileLen": true, "verifFSMarkSynced": true, "verifFSCacheLoad": true, "verifFSCacheSave": true,
 }
 
